@@ -209,6 +209,7 @@ func RunFlow(w *World, spec *RunSpec, tune func(f *Flow)) *Flow {
 	}
 	f.AdoptWarn = map[int][]error{}
 	f.DamagedGen = map[int]bool{}
+	f.LeftoverGen = map[int]bool{}
 	f.adopted = map[int]bool{}
 	f.Carry = map[[2]int]bool{}
 	w.StopParam = -1
@@ -762,6 +763,30 @@ func init() {
 			f.addStray(f.W.Tape.Draw("nstray", 3))
 		}
 	}, "damaged_session_recovered")})
+	// damage, adoption, more work, another stop and adoption: what the first
+	// adoption abandoned stays in the store and must not trip the second
+	register("C16", Family{Name: "damage-then-restart", Weight: 1, Run: flowFamily(func(f *Flow) {
+		restartTune(-1)(f)
+		o := &f.O
+		o.Generations = 3
+		o.StopW = 0
+		f.HoldUntilLastGen = true
+		o.StopWhenPublished = true // with the window full: acknowledgements are withheld
+		o.RWMin, o.RWMax = 100*time.Millisecond, time.Second
+		o.ALOMax = 2 + f.W.Tape.Draw("alomax16r", 3)
+		o.EOMax = 2 + f.W.Tape.Draw("eomax16r", 3)
+		o.Publishers = 2
+		o.PerPub = 4 + f.W.Tape.Draw("perpub16r", 5)
+		o.Inbound = 0
+		f.BetweenGens = func(f *Flow, gen int) {
+			if gen == 2 {
+				// outbound records other than the oldest
+				f.drawDamage(1+f.W.Tape.Draw("ndamage16r", 2), map[string]bool{"publish": true, "pubrel": true})
+			} else if len(f.Damage) > 0 {
+				f.LeftoverGen[gen] = true // what the first adoption abandoned is still stored
+			}
+		}
+	}, "damaged_session_recovered", "second_adoption_after_damage")})
 	register("C15", Family{Name: "single-byte", Weight: 1, Sweep: true, Run: func(w *World, spec *RunSpec, res *RunResult) {
 		flowFamily(func(f *Flow) {
 			o := &f.O
